@@ -156,6 +156,7 @@ PROPS = {
         floors=fl({'probe_programs': 60, 'layer2_probes_run': 4}, {'probe_programs': 60}),
         assumptions=COMMON_ASSUME),
     'C18': dict(
+        miri={'quick': (64, 16, 2), 'thorough': (32, 16, 2)},
         level='exploration', flavours=fl(['debug', 'fastrel'], ['debug', 'fastrel', 'miri']),
         rule="every root x values: serialize_with_schema bytes == serialize bytes (masked); rows in pre-order rebuilt into a tree from "
              "names and extents: siblings contiguous, children end where the composite ends, top level tiles [0,len); PADDING rows zero; "
@@ -170,6 +171,7 @@ PROPS = {
              "set_position) plus seeded random histories of length 200 over a richer alphabet (i64::MIN/MAX, u64::MAX, usize::MAX); "
              "after every step return value, position, length, contents and storage alignment are compared; distinct = history",
         floors=fl({'histories_exhaustive': 250000, 'state_comparisons': 1000000}, {'histories_exhaustive': 4000000}),
+        miri={'quick': (64, 16, 2), 'thorough': (32, 16, 3)},
         assumptions=["std::io::Cursor<Vec<u8>> is the specification", "writes are only issued at positions <= 1 MiB (the model would allocate the gap)",
                      "the position after a failed read_exact is unspecified by Read::read_exact and resynchronised, not judged"]),
 }
